@@ -10,7 +10,8 @@ def rand_word(rng, nprog):
         return rng.randrange(65536)
     op = rng.choice([0, 0, 1, 1, 2, 2, 3, 4, 5, 6, 7, 8, 9, 10, 11, 12, 13, 14, 15])
     if op == 2:
-        addr = rng.randrange(max(1, nprog + 2))
+        # branch targets: inside / just past the program, and the ends of the address space (pc wrap at 0xFFF)
+        addr = rng.choice([rng.randrange(max(1, nprog + 2)), rng.randrange(max(1, nprog + 2)), 4095, 4094, 0, nprog])
     elif rng.random() < 0.35:
         addr = rng.randrange(max(1, nprog))          # program area: self-modification / reading code
     else:
